@@ -2,6 +2,7 @@
 
 from __future__ import annotations
 
+import json
 import random
 import re
 
@@ -98,6 +99,12 @@ def _match_regex(op, attr: str, rx: str) -> bool:
 def _match_by(op, expr: str) -> bool:
     ptr, opr, val = expr.split(" ")
     key = ptr.lstrip("/")
+    if key == "parameters/0/in":
+        # first operation-level parameter in document order (the reference table keeps that order), references resolved
+        own = [p for p in op.params if p.level != "path"]
+        cur = own[0].location if own else None
+        want = val.strip('"')
+        return (cur == want) if opr == "==" else (cur != want)
     cur = {"x-internal": True if op.x_internal else None, "deprecated": True if op.deprecated else None}.get(key)
     want = {"true": True, "false": False}.get(val, val)
     return (cur == want) if opr == "==" else (cur != want)
@@ -126,9 +133,14 @@ def selected(u: Universe, f: dict) -> set[str]:
 def gen_desc(verif_seed: int, i: int, tier: str = "quick") -> dict:
     rs = gen.run_seed(verif_seed, PROPERTY, i)
     rng = random.Random(rs)
-    udesc = gen_universe(rng, n_collections=rng.choice([1, 2, 2, 3]), p_deprecated=0.25, p_no_opid=0.25, p_x_internal=0.3, p_link=0.9, p_link_del=0.7)
+    udesc = gen_universe(rng, n_collections=rng.choice([1, 2, 2, 3]), p_deprecated=0.25, p_no_opid=0.25, p_x_internal=0.3, p_link=0.9, p_link_del=0.7,
+                         p_header_param=0.6, ref_params=True)
     u = Universe(udesc)
     f = gen_filters(u, rng)
+    r2 = random.Random(rs ^ 0xB7)
+    if f["include_by"] is None and f["exclude_by"] is None and r2.random() < 0.25:
+        # an expression whose pointer runs through the operation's parameter list (entries may sit behind $ref)
+        f[r2.choice(["include_by", "exclude_by"])] = r2.choice(['/parameters/0/in == "header"', '/parameters/0/in == "path"', '/parameters/0/in != "query"'])
     cfg = gen.gen_engine_config(rng, entry="cli", checks_pool=["not_a_server_error"], modes=rng.choice([["positive"], ["positive", "negative"], ["negative"]]))
     cfg["max_failures"] = None
     cfg["shim"] = True
@@ -257,12 +269,15 @@ class C07Profile(Profile):
             stat = lf[0].statistic
             total_links = sum(len(o.links) for o in u.ops.values())
             sel_links = sum(1 for k, o in u.ops.items() if k in sel for l in o.links if l["target"] in sel)
+            # the counts are computed on the raw definitions: an expression whose pointer runs through a $ref'd entry sees the
+            # reference object instead of the parameter (known finding when that is the case)
+            through_ref = any((f[k] or "").startswith("/parameters/") for k in ("include_by", "exclude_by")) and '"$ref": "#/components/parameters/' in json.dumps(u.doc).replace("#/parameters/", "#/components/parameters/")
             if (stat.operations.selected, stat.operations.total) != (len(sel), len(u.ops)):
                 v("R3", f"reported operations {stat.operations.selected} selected / {stat.operations.total} total, reference {len(sel)} / {len(u.ops)} "
-                        f"(filters {filter_argv(f)})", what="operation_counts_differ")
+                        f"(filters {filter_argv(f)})", what="operation_counts_differ", expression_through_ref=through_ref)
             if (stat.links.selected, stat.links.total) != (sel_links, total_links):
                 v("R3", f"reported links {stat.links.selected} selected / {stat.links.total} total, reference {sel_links} / {total_links} "
-                        f"(filters {filter_argv(f)})", what="link_counts_differ")
+                        f"(filters {filter_argv(f)})", what="link_counts_differ", expression_through_ref=through_ref)
         return vs
 
     def stats(self, ctx) -> dict:
